@@ -53,7 +53,26 @@ type msgCase struct {
 	// other members (database, language, charset) before / after the PACKSIZE member
 	EnvBefore int `json:"env_members_before_packsize,omitempty"`
 	EnvAfter  int `json:"env_members_after_packsize,omitempty"`
+	// HalfAfter k > 0 / HalfLen n: after the first k package descriptions the client tries to
+	// queue a package whose serialisation fails after n bytes (possibly more than a packet holds)
+	// and goes on with the message regardless. Whether the n bytes stay in the message or are
+	// taken back is the library's choice; the packets must be framed correctly either way and
+	// carry the other packages completely and in order.
+	HalfAfter int `json:"half_serialised_package_after,omitempty"`
+	HalfLen   int `json:"half_serialised_bytes,omitempty"`
 }
+
+// halfN is a package whose serialisation fails after n bytes.
+type halfN struct{ n int }
+
+func (halfN) ReadFrom(tds.BytesChannel) error { return errors.New("not readable") }
+func (h halfN) WriteTo(ch tds.BytesChannel) error {
+	if err := ch.WriteBytes(bytes.Repeat([]byte{0xee}, h.n)); err != nil {
+		return err
+	}
+	return errors.New("halfN: value of the wrong type")
+}
+func (h halfN) String() string { return fmt.Sprintf("halfN(%d)", h.n) }
 
 // refused is a package of the application's own that cannot be serialised.
 type refused struct{}
@@ -219,9 +238,12 @@ func runCase(c c01Case) (f *vh.Failure) {
 		}
 		ch.CurrentHeaderType = tds.PacketHeaderType(m.HeaderType)
 		var pkgs []tds.Package
+		var bounds []int
 		for i, d := range m.Pkgs {
 			pkgs = append(pkgs, build(d, byte(mi)+byte(i))...)
+			bounds = append(bounds, len(pkgs))
 		}
+		var wantAlt []byte
 		if m.Abort {
 			// queue everything but the last package normally (full packets may go out), then
 			// flush with a cancelled context
@@ -274,6 +296,20 @@ func runCase(c c01Case) (f *vh.Failure) {
 			}
 			if err != nil {
 				return vh.Failf("C01/send-error", "message %d package %d: %v", mi, i, err)
+			}
+			if m.HalfAfter > 0 && m.HalfAfter <= len(bounds) && i+1 == bounds[m.HalfAfter-1] && i+1 < len(pkgs) && !m.Abort {
+				if err := ch.QueuePackage(ctx, halfN{m.HalfLen}); err == nil {
+					return vh.Failf("C01/send-error", "message %d: QueuePackage of a package whose WriteTo fails returned nil", mi)
+				}
+				pre, err := expected(m.Pkgs[:m.HalfAfter], byte(mi))
+				if err != nil {
+					vh.HarnessBug("expected encoding: %v", err)
+				}
+				wantAlt = append(append(append([]byte{}, pre...), bytes.Repeat([]byte{0xee}, m.HalfLen)...), want[len(pre):]...)
+				vh.Label("half-serialised-package-mid-message")
+				if m.HalfLen > cur-8 {
+					vh.Label("half-serialised-package-longer-than-a-packet")
+				}
 			}
 			if m.RefusedAfter > 0 && i+1 == m.RefusedAfter && i+1 < len(pkgs) {
 				if err := ch.QueuePackage(ctx, refused{}); err == nil {
@@ -352,6 +388,9 @@ func runCase(c c01Case) (f *vh.Failure) {
 			}
 			body = append(body, p.Body...)
 		}
+		if wantAlt != nil && bytes.Equal(body, wantAlt) {
+			want = wantAlt // the bytes of the failed package stayed in the message
+		}
 		if !bytes.Equal(body, want) {
 			i := 0
 			for i < len(body) && i < len(want) && body[i] == want[i] {
@@ -423,6 +462,10 @@ func genMsg(rt *rapid.T) msgCase {
 	m.FailFirst = rapid.IntRange(0, 5).Draw(rt, "failfirst") == 0
 	if rapid.IntRange(0, 5).Draw(rt, "refused") == 0 {
 		m.RefusedAfter = rapid.IntRange(1, 3).Draw(rt, "refusedafter")
+	}
+	if rapid.IntRange(0, 5).Draw(rt, "half") == 0 {
+		m.HalfAfter = rapid.IntRange(1, 3).Draw(rt, "halfafter")
+		m.HalfLen = rapid.OneOf(rapid.IntRange(1, 40), rapid.IntRange(200, 1200)).Draw(rt, "halflen")
 	}
 	if rapid.IntRange(0, 2).Draw(rt, "envmembers") == 0 {
 		m.EnvBefore = rapid.IntRange(0, 2).Draw(rt, "envbefore")
